@@ -17,7 +17,8 @@ def main(path):
     pd = propdefs.PROPS[d["property"]]
     target = d["unit"].split("[")[0]
     label = d["unit"][len(target) + 1:-1]
-    for modname, tg in pd.get("contracts", []):
+    for entry in pd.get("contracts", []):
+        modname, tg = entry[0], entry[1]
         if tg == target:
             cmod = importlib.import_module(modname)
             c = [x for x in cmod.CONTRACTS if x.name == target][0]
